@@ -403,6 +403,12 @@ func C07(p *Prog, r *Run) {
 						case token.ADD:
 							if isOptField(other, opt("DisjointCoeff")) || isOptField(other, opt("ExcessCoeff")) {
 								role = "cost"
+							} else {
+								visit(y, depth+1) // the accumulated value flows on
+							}
+						case token.SUB:
+							if y.X == v {
+								visit(y, depth+1)
 							}
 						}
 					}
@@ -688,8 +694,40 @@ func C07(p *Prog, r *Run) {
 						}
 					}
 				}
+				if !accounted && (ex1 || ex2) && eCnt != nil && ip.ExitTo != nil {
+					// forward form: excess += float64(len(other) - otherCursor)
+					otherFam, otherLen := fam2, "len(p1.Genes)"
+					if ex2 {
+						otherFam, otherLen = fam1, "len(recv.Genes)"
+					}
+					var cand []ssa.Instruction
+					cand = append(cand, ip.Blocks[len(ip.Blocks)-2].Instrs...)
+					if len(ip.ExitTo.Preds) == 1 {
+						cand = append(cand, ip.ExitTo.Instrs...)
+					}
+					for _, in := range cand {
+						bo, ok := in.(*ssa.BinOp)
+						if !ok || bo.Op != token.ADD {
+							continue
+						}
+						sub0 := &IterPath{Blocks: ip.Blocks[:len(ip.Blocks)-1], End: "partial"}
+						for _, pr := range [][2]ssa.Value{{bo.X, bo.Y}, {bo.Y, bo.X}} {
+							if sub0.Resolve(pr[0]) != ssa.Value(eCnt) {
+								continue
+							}
+							cv, ok := pr[1].(*ssa.Convert)
+							if !ok {
+								continue
+							}
+							sb, ok := cv.X.(*ssa.BinOp)
+							if ok && sb.Op == token.SUB && tm.Of(sb.X).String() == otherLen && otherFam[sb.Y] {
+								accounted = true
+							}
+						}
+					}
+				}
 				if accounted {
-					r.OK(label, pos, "the walk ends with one list exhausted and adds the remainder of the other list (cursor+1 genes) as disjoint")
+					r.OK(label, pos, "the walk ends with one list exhausted and adds the remainder of the other list to the distance")
 				} else {
 					r.Bad(label, pos, fmt.Sprintf("the walk can end with list1 exhausted=%v, list2 exhausted=%v and without accounting for the remaining genes: they are neither matched nor counted", ex1, ex2), ip.Describe(p)...)
 				}
